@@ -24,8 +24,8 @@ type c07Exp struct {
 	// Durable: the receiver is given a rebuilt copy of the snapshot (fresh maps, fresh values - what comes back
 	// from a save file after a crash), not the value the original runner handed out
 	Durable bool `json:"durable,omitempty"`
-	X     []Op `json:"x"`
-	X2    []Op `json:"x2,omitempty"`
+	X       []Op `json:"x"`
+	X2      []Op `json:"x2,omitempty"`
 }
 
 func c07World(tp *Tape, env *Env) (*Plan, *Violation) {
